@@ -679,14 +679,62 @@ def _ispent_model(pent_flag):
     return model
 
 
+class _Field:
+    """a struct member by its debug-info description (bit offset, bit size, signedness): also bit-fields, whatever IR element holds them"""
+    def __init__(self, name, off, size, signed):
+        self.name, self.off, self.size, self.signed = name, off, size, signed
+
+    def write(self, ev, mem, base, value, inst):
+        if self.off % 8 == 0 and self.size % 8 == 0:
+            return ev.mem_store(mem, base, self.off // 8, value if not isinstance(value, int) else value & ((1 << self.size) - 1), self.size // 8, inst)
+        if not isinstance(value, int):
+            raise Shape("index-derived value in a bit-field")
+        b0, b1 = self.off // 8, (self.off + self.size - 1) // 8
+        cur = 0
+        for k in range(b0, b1 + 1):
+            e = mem.get((base, k))
+            cur |= ((e[0] if e is not None and isinstance(e[0], int) and e[1] == 1 else 0) & 0xFF) << (8 * (k - b0))
+        sh = self.off - 8 * b0
+        cur = (cur & ~(((1 << self.size) - 1) << sh)) | ((value & ((1 << self.size) - 1)) << sh)
+        for k in range(b0, b1 + 1):
+            mem = ev.mem_store(mem, base, k, (cur >> (8 * (k - b0))) & 0xFF, 1, inst)
+        return mem
+
+    def read(self, ev, mem, base, inst):
+        if self.off % 8 == 0 and self.size % 8 == 0:
+            v = ev.mem_load(mem, base, self.off // 8, self.size // 8, inst)
+        else:
+            b0, b1 = self.off // 8, (self.off + self.size - 1) // 8
+            raw = ev.mem_load(mem, base, b0, b1 - b0 + 1, inst)
+            if not isinstance(raw, int):
+                raise Shape("index-derived value in a bit-field")
+            v = (raw >> (self.off - 8 * b0)) & ((1 << self.size) - 1)
+        if isinstance(v, int) and self.signed and v >> (self.size - 1):
+            v -= 1 << self.size
+        return v
+
+    def unpack(self, word, word_off_bits):
+        """the member's value inside an integer that holds the struct bytes starting at bit word_off_bits (ABI-packed struct returns)"""
+        v = (word >> (self.off - word_off_bits)) & ((1 << self.size) - 1)
+        if self.signed and v >> (self.size - 1):
+            v -= 1 << self.size
+        return v
+
+
 def _iter_struct(m):
-    sk, hi = m.struct_field("IterCellsChildren", "h")
-    info = m.structs[sk]
-    offs = {}
-    for name in ("h", "_parentRes", "_skipDigit"):
-        _k, i = m.struct_field("IterCellsChildren", name)
-        offs[name] = info["fields"][i][1]
-    return offs
+    sk, _i = m.struct_field("IterCellsChildren", "h") if any(n == "h" for n, _t in m.structs.get("struct.IterCellsChildren", {}).get("names", [])) else ("struct.IterCellsChildren", 0)
+    info = m.structs.get(sk)
+    if info is None:
+        raise AnalysisBroken("struct IterCellsChildren not found")
+    out = {}
+    for name, off, size, _bf, sg in info.get("members", []):
+        out[name] = _Field(name, off, size, sg)
+    for need in ("h", "_parentRes", "_skipDigit"):
+        if need not in out:
+            raise AnalysisBroken("IterCellsChildren has no member %s" % need)
+    if out["h"].size != 64:
+        raise AnalysisBroken("IterCellsChildren.h is not 64 bits wide")
+    return out
 
 
 def chk_iter_init(ctx, m, cfg):
@@ -736,13 +784,13 @@ def chk_iter_init(ctx, m, cfg):
                             r = p.ret
                             if not (isinstance(r, tuple) and r[0] == "agg" and len(r[1]) == 2 and isinstance(r[1][1], int)):
                                 raise Shape("iterInitParent does not return the iterator as {h, (parentRes, skipDigit)}")
-                            if offs["_parentRes"] != 8 or offs["_skipDigit"] != 12:
+                            if offs["h"].off != 0 or offs["_parentRes"].off < 64 or offs["_skipDigit"].off < 64:
                                 raise Shape("IterCellsChildren layout changed")
-                            hv, pv, sv = r[1][0], r[1][1] & 0xFFFFFFFF, r[1][1] >> 32
+                            hv, pv, sv = r[1][0], offs["_parentRes"].unpack(r[1][1], 64), offs["_skipDigit"].unpack(r[1][1], 64)
                         else:
-                            hv = ev.mem_load(p.mem, ("arg", ik), offs["h"], 8, dummy)
-                            sv = ev.mem_load(p.mem, ("arg", ik), offs["_skipDigit"], 4, dummy)
-                            pv = ev.mem_load(p.mem, ("arg", ik), offs["_parentRes"], 4, dummy)
+                            hv = offs["h"].read(ev, p.mem, ("arg", ik), dummy)
+                            sv = offs["_skipDigit"].read(ev, p.mem, ("arg", ik), dummy)
+                            pv = offs["_parentRes"].read(ev, p.mem, ("arg", ik), dummy)
                         if hv is None or not isinstance(sv, int) or not isinstance(pv, int):
                             raise Shape("%s leaves a field unwritten or index-dependent" % fname)
                         h_is0 = F_const(hv == 0) if isinstance(hv, int) else F_not(lanes.F_atom(lanes.Atom("nz", hv)))
@@ -756,8 +804,8 @@ def chk_iter_init(ctx, m, cfg):
                             if pv != res:
                                 fm["_parentRes is not res(h)"] = F_and(p.cond, F_not(hzero))
                             ispent = F_and(F_const(pent), F_not(lead_nz))
-                            exp_c = F_and(ispent, F_const((sv & 0xFFFFFFFF) != (cr & 0xFFFFFFFF)))
-                            exp_m = F_and(F_not(ispent), F_const((sv & 0xFFFFFFFF) != 0xFFFFFFFF))
+                            exp_c = F_and(ispent, F_const(sv != cr))
+                            exp_m = F_and(F_not(ispent), F_const(sv != -1))
                             fm["_skipDigit is not (childRes if pentagon else -1)"] = F_and(p.cond, F_and(F_not(hzero), F_or(exp_c, exp_m)))
                         st, bad = lanes.decide(p.allowed, fm, SpecNone(list(fm)))
                         states += st
@@ -836,9 +884,11 @@ def _iter_step_case(args):
     base = ("arg", 0)
     dummy = f.blocks[0].insts[0]
     mem = {}
-    mem = ev.mem_store(mem, base, offs["h"], LV.input(), 8, dummy)
-    mem = ev.mem_store(mem, base, offs["_parentRes"], p, 4, dummy)
-    mem = ev.mem_store(mem, base, offs["_skipDigit"], s & 0xFFFFFFFF, 4, dummy)
+    mem = offs["h"].write(ev, mem, base, LV.input(), dummy)
+    mem = offs["_parentRes"].write(ev, mem, base, p, dummy)
+    mem = offs["_skipDigit"].write(ev, mem, base, s, dummy)
+    if offs["_parentRes"].read(ev, mem, base, dummy) != p or offs["_skipDigit"].read(ev, mem, base, dummy) != s:
+        return 1, 0, ("the iterator cannot represent the state _parentRes=%d, _skipDigit=%d (member too narrow): the documented iteration state is lost" % (p, s), False, True, 0, (c, p, s, pent)), None
     try:
         paths = ev.run(fname, [lanes.argptr(0)], 0, mem)
         S, ch = _succ_spec(c, p, s, pent)
@@ -848,9 +898,9 @@ def _iter_step_case(args):
             skipped = F_const(True) if s == c else lanes.F_atom(lanes.Atom("carryat", None, ch, 15 - s))
         states = 0
         for pth in paths:
-            hv = ev.mem_load(pth.mem, base, offs["h"], 8, dummy)
-            sv = ev.mem_load(pth.mem, base, offs["_skipDigit"], 4, dummy)
-            pv = ev.mem_load(pth.mem, base, offs["_parentRes"], 4, dummy)
+            hv = offs["h"].read(ev, pth.mem, base, dummy)
+            sv = offs["_skipDigit"].read(ev, pth.mem, base, dummy)
+            pv = offs["_parentRes"].read(ev, pth.mem, base, dummy)
             if not isinstance(sv, int) or not isinstance(pv, int):
                 raise Shape("iterStepChild leaves an index-dependent _skipDigit/_parentRes")
             hl = lanes.const_lv(hv) if isinstance(hv, int) else hv
@@ -862,8 +912,8 @@ def _iter_step_case(args):
                   "iter.h is not the next child in index order": F_and(pth.cond, F_and(F_not(over), h_ne))}
             if pv != p:
                 fm["_parentRes changes during the iteration"] = F_and(pth.cond, F_not(over))
-            exp_skip = F_and(skipped, F_const(sv != ((s - 1) & 0xFFFFFFFF)))
-            exp_keep = F_and(F_not(skipped), F_const(sv != (s & 0xFFFFFFFF)))
+            exp_skip = F_and(skipped, F_const(sv != s - 1))
+            exp_keep = F_and(F_not(skipped), F_const(sv != s))
             fm["_skipDigit is not moved exactly when the 1 of the skip digit was skipped"] = F_and(pth.cond, F_and(F_not(over), F_or(exp_skip, exp_keep)))
             st, bad = lanes.decide(pth.allowed, fm, SpecNone(list(fm)))
             states += st
